@@ -78,6 +78,37 @@ def run_runner(job, timeout=120):
     return json.loads(p.stdout.decode())
 
 
+def sibling_arguments():
+    """(module, function) -> [(x, y)]: arguments with a common 6-character prefix that belong to different entries of the
+    module's registry (read with the independent parser)."""
+    from vlib import ndb
+    out = {}
+    try:
+        with open(os.path.join(lib.REPO, 'stdnum', 'oui.dat'), encoding='utf-8') as fh:
+            tree, _ = ndb.parse_text(fh.read())
+        groups = {}
+
+        def walk(entries, prefix):
+            for e in entries:
+                lo = prefix + ''.join(map(chr, e['low']))
+                if len(lo) > 6 and dict(e['props']).get('o'):
+                    groups.setdefault(lo[:6], []).append(lo)
+                walk(e.get('kids', []), lo)
+        walk(tree, '')
+        pairs = []
+        for k in sorted(groups):
+            g = sorted(set(groups[k]))
+            if len(g) >= 2:
+                mk = lambda h: ':'.join((h + '0' * 12)[:12][i:i + 2] for i in range(0, 12, 2)).lower()
+                pairs.append((mk(g[0]), mk(g[-1])))
+            if len(pairs) >= 3:
+                break
+        out[('mac', 'get_manufacturer')] = pairs
+    except Exception:
+        pass
+    return out
+
+
 def main():
     chk = run.Check(PROP)
     quick = chk.tier == 'quick'
@@ -110,7 +141,7 @@ def main():
             mod, fn, args = rnd.choice(cands)
             seq.append({'mod': mod, 'fn': fn, 'args': args, 'mutate': bool(step['mutate'])})
         jobs.append({'kind': 'history', 'calls': seq})
-    # ---- thread stress + schedules
+    # ---- deterministic histories on top of the generated ones (filled in below, once the first-use calls are listed)
     nst = 16 if quick else 300
     firstuse = [('mac', 'get_manufacturer', ['00:00:AA:12:34:56']), ('isbn', 'format', ['9789024538270']), ('imsi', 'info', ['429011234567890']),
                 ('be.iban', 'info', ['BE32 123-4567890-02']), ('eu.vat', 'validate', ['NL4495445B01']), ('eu.vat', 'validate', ['EL094259216']),
@@ -120,6 +151,25 @@ def main():
                 ('cn.ric', 'get_birth_place', ['360426199101010071']), ('eu.vat', 'validate', ['XI980780684']), ('at.tin', 'info', ['59-119/9013']),
                 # an IBAN that only the NATIONAL validator rejects (bad CCC check digits): a lookup that answers too early shows
                 ('iban', 'validate', ['ES2121000418450200051331'])]
+    # (a) aliasing: every first-use call, its result mutated in place, the same call again -- and a call of the same function
+    #     on a sibling argument in between
+    for m_, f_, a_ in firstuse:
+        jobs.append({'kind': 'history', 'calls': [{'mod': m_, 'fn': f_, 'args': a_, 'mutate': True}, {'mod': m_, 'fn': f_, 'args': a_, 'mutate': False}]})
+    # (b) sibling arguments: two numbers that share a long prefix but fall into different registry entries (a lookup memoised
+    #     under a truncated key answers the second one with the first one's entry); taken from the registry files themselves
+    for (m_, f_), pairs in sorted(sibling_arguments().items()):
+        for x, y in pairs:
+            jobs.append({'kind': 'history', 'calls': [{'mod': m_, 'fn': f_, 'args': [x], 'mutate': False}, {'mod': m_, 'fn': f_, 'args': [y], 'mutate': False},
+                                                      {'mod': m_, 'fn': f_, 'args': [x], 'mutate': False}]})
+    # (c) first use of the clean-up table by several threads at once, each with a different kind of look-alike character
+    lookalike = [('isbn', 'validate', ['978\u20130\u2013471\u201311709\u20134']), ('isbn', 'validate', ['\uff19\uff17\uff18\uff10\uff14\uff17\uff11\uff11\uff11\uff17\uff10\uff19\uff14']),
+                 ('nl.bsn', 'validate', ['1112\u2024222\u202433']), ('ean', 'validate', ['\U0001d7d5\U0001d7d1\U0001d7d3\U0001d7cf\U0001d7d1\U0001d7d3\U0001d7d1\U0001d7d5']),
+                 ('iban', 'validate', ['GR16\u30000110\u30001050\u30000000\u300010547023795'])]
+    for rep in range(12 if quick else 60):
+        jobs.append({'kind': 'threads', 'n': 10, 'calls': None, 'schedule': None,
+                     'per_thread': [[{'mod': m_, 'fn': f_, 'args': a_}] for m_, f_, a_ in (lookalike * 2)]})
+    for sline in (single if False else []):
+        pass
     for i in range(nst):
         k = 1 + (i % 3)
         sel = rnd.sample(firstuse, k)
@@ -149,6 +199,10 @@ def main():
     # quick: every schedule with a single preemption (one thread stopped after k lines, the other runs to completion), a sample of the rest
     single = [x for x in lscheds if sum(1 for a, b in zip(x, x[1:]) if a != b) <= 2]
     others = [x for x in lscheds if x not in single]
+    for sline in (single if quick else lscheds):
+        jobs.append({'kind': 'threads', 'n': 2, 'calls': None, 'schedule': None, 'lines': sline,
+                     'per_thread': [[{'mod': lookalike[0][0], 'fn': lookalike[0][1], 'args': lookalike[0][2]}],
+                                    [{'mod': lookalike[1][0], 'fn': lookalike[1][1], 'args': lookalike[1][2]}]]})
     for call in line_calls:
         for sline in (single + others[::6] if quick else lscheds):
             jobs.append({'kind': 'threads', 'n': 2, 'calls': [{'mod': call[0], 'fn': call[1], 'args': call[2]}], 'schedule': None, 'lines': sline})
@@ -180,7 +234,7 @@ def main():
             hev.append({'r': r['r'], 'fresh': distinct[k]})
             hidx.append({'m': r['mod'], 'w': '%s.%s(%s)' % (r['mod'], r['fn'], ', '.join(map(repr, r['args']))), 'how': '%s job %d step %d%s' % (job['kind'], ji, r['step'], ' thread ' + r.get('th', '') if r.get('th') else ''),
                          'site': '', 'got': r['r'][:300], 'fresh': distinct[k][:300],
-                         'history': [(c['mod'], c['fn'], c['args'], c.get('mutate')) for c in job['calls']][:10]})
+                         'history': [(c['mod'], c['fn'], c['args'], c.get('mutate')) for c in (job['calls'] or [x for t in job.get('per_thread', []) for x in t])][:10]})
         nsched_timeouts += o.get('timeouts', 0)
         for e in o.get('hooklog', []):
             rev.append(dict(e, run=ji))
